@@ -133,6 +133,9 @@ Access(p, l) == CASE
   [] p = "dis.cas_unlink"   -> Cas(SENT, l.sw, W(l.sw.size, l.hw.next), "acqrel", "rlx")  \* 1526
   [] p = "dis.restore"      -> Store(l.head, l.hw)                                  \* repaired protocol only
   [] p = "dis.fadd"         -> Fadd(DISC, l.hw.size)                                \* 1534
+  \* ---- set_minimum_segment_size 462-469 / increase_discarded 442-449: one access each, racing with every load above
+  [] p = "sm.store"         -> Store(MSEG, l.n)
+  [] p = "id.fadd"          -> Fadd(DISC, l.n)
   \* ---- Clone 181 / Drop 1671, 1695 / Memory::unmount
   [] p = "rc.fadd"          -> Fadd(REFS, 1)
   [] p = "rc.fsub"          -> Fsub(REFS, 1)
@@ -288,6 +291,8 @@ Cont(p, l, r) == CASE
   [] p = "dis.cas_unlink" -> (IF r.ok THEN Goto(l, "dis.fadd") ELSE IF FixedList THEN Goto(l, "dis.restore") ELSE Goto(l, "dis.load_sent"))
   [] p = "dis.restore" -> Goto(l, "dis.load_sent")
   [] p = "dis.fadd" -> Goto([l EXCEPT !.acc = l.acc + (IF l.hw.size > 0 THEN l.hw.size ELSE 0)], "dis.load_sent")
+  [] p = "sm.store" -> Done(l, "set")
+  [] p = "id.fadd" -> Done(l, "set")
   \* ---- reference counting
   [] p = "rc.fadd" -> Done(l, "cloned")
   [] p = "rc.fsub" -> (IF r.old # 1 THEN Done(l, "dropped") ELSE Goto(l, "rc.load"))
@@ -316,6 +321,8 @@ StartOf(t, op) ==
   ELSE IF op.k = "aa" THEN Goto([L0 EXCEPT !.opk = "aa", !.ts = op.s, !.ta = op.a, !.ex = op.n, !.n = op.s + op.a - 1 + op.n], "al.load_cur")
   ELSE IF op.k = "drop" THEN Goto([L0 EXCEPT !.opk = "drop", !.h = op.h, !.ioff = hs[op.h].mo, !.isize = hs[op.h].ms], "de.cas_cur")
   ELSE IF op.k = "discard" THEN Goto([L0 EXCEPT !.opk = "discard"], "dis.load_sent")
+  ELSE IF op.k = "setmin" THEN Goto([L0 EXCEPT !.opk = "setmin", !.n = op.v], "sm.store")
+  ELSE IF op.k = "incdisc" THEN Goto([L0 EXCEPT !.opk = "incdisc", !.n = op.v], "id.fadd")
   ELSE IF op.k = "clone" THEN Goto([L0 EXCEPT !.opk = "clone"], "rc.fadd")
   ELSE IF op.k \in {"drop_arena", "drop_clone"} THEN Goto([L0 EXCEPT !.opk = op.k], "rc.fsub")
   ELSE IF op.k = "fill" THEN Goto([L0 EXCEPT !.opk = "fill", !.h = op.h], "user.fill")
@@ -351,7 +358,7 @@ Step(t) ==
      IN
      /\ cursor' = IF wr /\ a.at = CUR THEN nv ELSE cursor
      /\ disc' = IF wr /\ a.at = DISC THEN nv ELSE disc
-     /\ minseg' = minseg
+     /\ minseg' = IF wr /\ a.at = MSEG THEN nv ELSE minseg
      /\ sent' = IF wr /\ a.at = SENT THEN nv ELSE sent
      /\ refs' = IF wr /\ a.at = REFS THEN nv ELSE refs
      /\ freed' = IF a.kind = "unmount" THEN freed + 1 ELSE freed
